@@ -58,7 +58,7 @@ theorem pLookup_insert (p : Pending) (k : Nat) (v : Option String) (s : Nat) :
 
 theorem takeExec_count {tok : Nat} {l rest : List Exec} {e : Exec} (p : Exec → Bool)
     (h : takeExec tok l = some (e, rest)) :
-    l.countP p = rest.countP p + (if p e then 1 else 0) := by
+    l.countP p = rest.countP p + (p e).toNat := by
   induction l generalizing rest with
   | nil => simp [takeExec] at h
   | cons x t ih =>
@@ -66,7 +66,7 @@ theorem takeExec_count {tok : Nat} {l rest : List Exec} {e : Exec} (p : Exec →
     by_cases hx : x.tok = tok
     · simp only [hx, if_true, Option.some.injEq, Prod.mk.injEq] at h
       obtain ⟨rfl, rfl⟩ := h
-      rw [List.countP_cons]
+      rw [List.countP_cons]; cases p x <;> rfl
     · simp only [hx, if_false] at h
       cases ht : takeExec tok t with
       | none => simp [ht] at h
@@ -105,6 +105,10 @@ theorem takeExec_mem {tok : Nat} {l rest : List Exec} {e : Exec} (h : takeExec t
 theorem countP_snoc {α : Type} (p : α → Bool) (l : List α) (x : α) :
     (l ++ [x]).countP p = l.countP p + (if p x then 1 else 0) := by
   rw [List.countP_append, List.countP_cons, List.countP_nil]; simp
+
+theorem countP_cons_toNat {α : Type} (p : α → Bool) (x : α) (l : List α) :
+    (x :: l).countP p = l.countP p + (p x).toNat := by
+  rw [List.countP_cons]; cases p x <;> rfl
 
 theorem countP_eq_zero_of {α : Type} (p : α → Bool) (l : List α) (h : ∀ x, x ∈ l → p x = false) :
     l.countP p = 0 := by
@@ -172,5 +176,26 @@ theorem Net.upd_cl (net : Net V) (c : Nat) (f : Client V → Client V) (j : Nat)
 
 theorem Net.upd_cl_ne (net : Net V) (c : Nat) (f : Client V → Client V) {j : Nat} (h : j ≠ c) :
     (net.upd c f).cl j = net.cl j := by simp [Net.upd_cl, h]
+
+theorem Net.upd_same (net : Net V) (c : Nat) (f : Client V → Client V) (h : f (net.cl c) = net.cl c) :
+    net.upd c f = net := by
+  cases net with
+  | mk n cl dropped =>
+    simp only [Net.upd, Net.mk.injEq, true_and, and_true]
+    funext j
+    by_cases hj : j = c
+    · subst hj; simpa using h
+    · simp [hj]
+
+theorem countP_ite_snoc {α : Type} (p : α → Bool) (b : Prop) [Decidable b] (l : List α) (x : α) :
+    (if b then l ++ [x] else l).countP p = l.countP p + (if b ∧ p x = true then 1 else 0) := by
+  by_cases hb : b <;> simp [hb]
+
+theorem countP_ite_tail {α : Type} (p : α → Bool) (b : Prop) [Decidable b] (l rest : List α) (x : α)
+    (h : b → l = x :: rest) :
+    (if b then rest else l).countP p + (if b ∧ p x = true then 1 else 0) = l.countP p := by
+  by_cases hb : b
+  · simp only [hb, if_true, true_and, h hb, List.countP_cons]
+  · simp [hb]
 
 end Txdbus.Net
